@@ -2,8 +2,6 @@
 # Build thejoker's Cython extension from the *current* generated C in a repo tree into a target
 # directory (never into /repo).  Cached by content hash of the inputs under /verif/.cache/kernel.
 #   usage: kernel_build.sh <repo-root> <dest-dir-for-.so>
-# If tools/kernel_c_patches/<sha256 of .c>.patch exists and the .pyx in the tree is not the
-# pristine pre-fix .pyx, the patch is applied to a scratch copy of the .c first (DESIGN 2.6).
 set -euo pipefail
 REPO="$1"; DEST="$2"
 HERE="$(cd "$(dirname "$0")" && pwd)"
@@ -15,17 +13,18 @@ SO=fast_likelihood.cpython-312-x86_64-linux-gnu.so
 [ -f "$C" ] || { echo "kernel_build: no generated C at $C" >&2; exit 3; }
 csha=$(sha256sum "$C" | cut -d' ' -f1)
 psha=$(sha256sum "$PYX" | cut -d' ' -f1)
+# The generated C cannot be regenerated here (no Cython).  When the tree still holds the pristine generated C
+# (identified by hash) but the .pyx is no longer the pristine pre-fix .pyx, the recorded mechanical edit
+# tools/patch_kernel_c.py (the C side of the four kernel `fix:` commits) is applied to a scratch copy first.
+PRISTINE_C=23ead32a18061ba1538b37017d984edfe5639c4ca9637de7ca3e9c484a812e37
+PRISTINE_PYX=605279bdc1f7e065ce7c36e99a6425f81922e31a2d27dfe8d5aef478971b156a
 PATCH=""
-if [ -f "$HERE/kernel_c_patches/$csha.patch" ]; then
-  # the recorded patch belongs to the pristine C; apply it only when the .pyx is no longer the pristine one
-  pristine_pyx=$(cat "$HERE/kernel_c_patches/$csha.pyxsha" 2>/dev/null || echo none)
-  if [ "$psha" != "$pristine_pyx" ]; then PATCH="$HERE/kernel_c_patches/$csha.patch"; fi
-fi
+if [ "$csha" = "$PRISTINE_C" ] && [ "$psha" != "$PRISTINE_PYX" ]; then PATCH="$HERE/patch_kernel_c.py"; fi
 key="$csha"; [ -n "$PATCH" ] && key="$csha-$(sha256sum "$PATCH" | cut -d' ' -f1 | cut -c1-16)"
 if [ ! -f "$CACHE/$key.so" ]; then
   W=$(mktemp -d /dev/shm/kbuild.XXXXXX); trap 'rm -rf "$W"' EXIT
   cp "$C" "$W/fast_likelihood.c"
-  if [ -n "$PATCH" ]; then (cd "$W" && patch -s -p0 fast_likelihood.c < "$PATCH"); fi
+  if [ -n "$PATCH" ]; then /venv/bin/python "$PATCH" "$C" "$W/fast_likelihood.c" >&2; fi
   NPI=$(/venv/bin/python -c "import numpy; print(numpy.get_include())")
   PYI=$(/venv/bin/python -c "import sysconfig; print(sysconfig.get_paths()['include'])")
   gcc -O2 -shared -fPIC --std=gnu99 -w -I"$PYI" -I"$NPI" -I"$TWO" \
